@@ -165,7 +165,46 @@ def to_query(a):
     if op == "numrange":
         return query.NumericRange(a["f"], a["lo"] if a["haslo"] else None, a["hi"] if a["hashi"] else None,
                                   startexcl=a["loexcl"], endexcl=a["hiexcl"], boost=b)
+    if op.startswith("span"):
+        from whoosh.query import spans
+        if op == "spanor":
+            return spans.SpanOr([to_query(k) for k in a["kids"]])
+        if op == "spanfirst":
+            return spans.SpanFirst(to_query(a["q"]), limit=a["limit"])
+        if op == "spannear":
+            return spans.SpanNear(to_query(a["a"]), to_query(a["b"]), slop=a["slop"], ordered=a["ordered"],
+                                  mindist=a["mindist"])
+        if op == "spannear2":
+            return spans.SpanNear2([to_query(k) for k in a["kids"]], slop=a["slop"], ordered=a["ordered"],
+                                   mindist=a["mindist"])
+        cls = {"spannot": spans.SpanNot, "spancontains": spans.SpanContains, "spanbefore": spans.SpanBefore,
+               "spancond": spans.SpanCondition}[op]
+        return cls(to_query(a["a"]), to_query(a["b"]))
     raise ValueError(op)
+
+
+def rand_span_query(rng, depth, f=None, nletters=2, maxlen=2):
+    """A random span query tree over one field (inputs only)."""
+    f = f or rng.choice(TEXT_FIELDS)
+    term = lambda: {"op": "term", "f": f, "t": rand_term(rng, nletters, maxlen), "b4": 4}
+    if depth <= 0:
+        return term()
+    sub = lambda: rand_span_query(rng, depth - 1, f, nletters, maxlen) if rng.random() < 0.5 else term()
+    op = rng.choice(["spanor", "spanfirst", "spannear", "spannear", "spannear2", "spannot", "spancontains", "spanbefore",
+                     "spancond", "or"])
+    if op == "or":
+        return {"op": "or", "kids": [term() for _ in range(rng.randrange(2, 4))], "b4": 4}
+    if op == "spanor":
+        return {"op": "spanor", "kids": [sub() for _ in range(rng.randrange(1, 4))]}
+    if op == "spanfirst":
+        return {"op": "spanfirst", "q": sub(), "limit": rng.choice([0, 0, 1, 2, 3])}
+    if op == "spannear":
+        return {"op": "spannear", "a": sub(), "b": sub(), "slop": rng.choice([1, 1, 2, 3]), "ordered": rng.random() < 0.6,
+                "mindist": rng.choice([1, 1, 1, 0, 2])}
+    if op == "spannear2":
+        return {"op": "spannear2", "kids": [sub() for _ in range(rng.randrange(2, 4))], "slop": rng.choice([1, 1, 2, 3]),
+                "ordered": rng.random() < 0.6, "mindist": rng.choice([1, 1, 1, 0, 2])}
+    return {"op": op, "a": sub(), "b": sub()}
 
 
 # ---------------------------------------------------------------------------
